@@ -269,7 +269,26 @@ func runWriterContract(r *vh.Rng) (string, string) {
 			cancel[i] = time.Duration(50+r.Intn(2500)) * time.Microsecond
 		}
 	}
-	res, wire := gocql.VerifRunWriter(coalesce, writeDelay, frames, start, cancel)
+	// watchdog only (the scenario takes milliseconds): a writer that never returns - e.g. parked for ever behind a
+	// semaphore that an earlier caller kept - must not hang the run; the campaign ends there (a broken tie unless a
+	// spec-backed line of this run is a concrete failing input)
+	type wcOut struct {
+		res  []gocql.VerifWriteResult
+		wire []byte
+	}
+	wch := make(chan wcOut, 1)
+	go func() {
+		res, wire := gocql.VerifRunWriter(coalesce, writeDelay, frames, start, cancel)
+		wch <- wcOut{res, wire}
+	}()
+	var res []gocql.VerifWriteResult
+	var wire []byte
+	select {
+	case o := <-wch:
+		res, wire = o.res, o.wire
+	case <-time.After(30 * time.Second):
+		return "fatal writer-contract scenario did not end within 30 s (a writer never returned)", "fatal"
+	}
 	var chunks []string
 	for len(wire) > 0 {
 		id := int(wire[0])
@@ -519,6 +538,9 @@ func main() {
 	}
 	for i := 0; i < 150*mult; i++ {
 		op, cls := runWriterContract(r)
+		if cls == "fatal" {
+			bail(op)
+		}
 		out.Case(op, "accept", cls, true)
 	}
 	// vectored-write tier: the real writers over loopback TCP (writev path of net.Buffers.WriteTo)
